@@ -426,23 +426,26 @@ def parseRdata (ctx : Ctx) (cls ty : Nat) : P (List UInt8) :=
 
 /-! ### records (record.rs `parse_record_or_empty`) -/
 
+/-- the part of `parse_record_or_empty` after the start of a record has been found -/
+def parseRecordRest (ctx : Ctx) (startLine : Nat) (leadingWhitespace : Bool) : P (Option Item × Ctx) := do
+  let owner ←
+    if leadingWhitespace then
+      match ctx.prevOwner with
+      | some o => pure o
+      | none => P.failAt .EmptyOwnerWithNoPrevious startLine
+    else pName ctx
+  skipToNextField .ExpectedTtlClassOrType
+  let (ttl, cls) ← parseTtlAndClass ctx
+  skipToNextField .ExpectedType
+  let ty ← parseTypeField
+  let rdata ← parseRdata ctx cls ty
+  pure (some (.record startLine ⟨owner, ttl, cls, ty, rdata⟩),
+        { ctx with prevOwner := some owner, prevTtl := some ttl, prevClass := some cls })
+
 def parseRecordOrEmpty (ctx : Ctx) : P (Option Item × Ctx) := do
   let startLine ← getLine
   let leadingWhitespace ← liftB skipWhitespace
   if (← skipToNextFieldOrThroughEol) == .Eol then pure (none, ctx)
-  else
-    let owner ←
-      if leadingWhitespace then
-        match ctx.prevOwner with
-        | some o => pure o
-        | none => P.failAt .EmptyOwnerWithNoPrevious startLine
-      else pName ctx
-    skipToNextField .ExpectedTtlClassOrType
-    let (ttl, cls) ← parseTtlAndClass ctx
-    skipToNextField .ExpectedType
-    let ty ← parseTypeField
-    let rdata ← parseRdata ctx cls ty
-    pure (some (.record startLine ⟨owner, ttl, cls, ty, rdata⟩),
-          { ctx with prevOwner := some owner, prevTtl := some ttl, prevClass := some cls })
+  else parseRecordRest ctx startLine leadingWhitespace
 
 end QV.ZF
